@@ -232,7 +232,9 @@ func (m *lifecycleReconcilerStorageMiddleware) expireObjectDeleteMarkers(ctx con
 				versionCopy := *version
 				candidate.currentDeleteMarker = &versionCopy
 			}
-			if !version.IsDeleteMarker {
+			if !version.IsDeleteMarker || !version.IsLatest {
+				// A delete marker is only expired when it is the key's sole version:
+				// older (noncurrent) markers count as remaining versions too.
 				candidate.hasObjectVersion = true
 			}
 		}
